@@ -1,5 +1,6 @@
 import NemoVerif.Drive.Common
 import NemoVerif.Models.Lifetime
+import NemoVerif.Models.LifetimeOps
 
 namespace NemoVerif.Drive.C06
 open Lean NemoVerif NemoVerif.Drive NemoVerif.Lifetime
@@ -107,8 +108,41 @@ def resToJson (l : Loaded) : Except Err State → Json
   | .ok s => stateToJson l s
   | .error e => Json.mkObj [("res", "err"), ("kind", .str (errStr e))]
 
+def scopesOfJson (j : Json) : Except String (List (Nat × List Nat × List Nat)) := do
+  let a ← j.getArr?
+  a.toList.mapM fun e => do
+    let p ← e.getArr?
+    if h : p.size = 3 then do
+      let n ← p[0].getNat?; let fl ← natList p[1]; let al ← natList p[2]; pure (n, fl, al)
+    else throw "bad scope"
+
+def iopOfJson (j : Json) : Except String IOp := do
+  match ← getStr j "op" with
+  | "abort" => pure (.abort (← getNat j "fuel") (← getNat j "uid") (← getBool j "d"))
+  | "finish" => pure (.finish (← getNat j "fuel") (← getNat j "uid") (← getBool j "d"))
+  | "endscope" => pure (.endScope (← getNat j "fuel") (← getNat j "uid") (← getNat j "name"))
+  | "startChild" => pure (.startChild (← getNat j "c") (← getNat j "fid") (← getNat j "p") (← getNat j "k"))
+  | "reactivate" => pure (.reactivate (← getNat j "fid") (← getBool j "known") (← getBool j "act") (← getBool j "hasInst") (← getNat j "source") (← natList (← j.getObjVal? "pm")))
+  | "status" => pure (.status (← getNat j "uid") (← fstatusOf (← getStr j "status")))
+  | "newAction" => pure (.newAction (← getNat j "uid") (← getNat j "a"))
+  | "startAction" => pure (.startAction (← getNat j "a"))
+  | "coWin" => pure (.coWin (← getNat j "loser") (← getNat j "a") (← getNat j "b"))
+  | "event" => pure (.event { uid := ← getNat j "auid", isAction := ← getBool j "isAction", started := ← getBool j "started",
+                              updated := ← getBool j "updated", finished := ← getBool j "finished", start := ← getBool j "start", stop := ← getBool j "stop" })
+  | "label" => pure (.label (← getNat j "uid"))
+  | "noRestart" => pure (.noRestart (← getNat j "uid"))
+  | "frame" => pure (.frame (← getNat j "uid") (← getNat j "heads") (← scopesOfJson (← j.getObjVal? "scopes")))
+  | s => throw s!"bad op {s}"
+
 def handle (op : String) (j : Json) : Except String Json := do
   match op with
+  | "ops" =>
+    let l ← stateOfJson (← j.getObjVal? "st")
+    let ops ← (← (← j.getObjVal? "ops").getArr?).toList.mapM iopOfJson
+    let extraF ← natList (← j.getObjVal? "newflows")
+    let extraA ← natList (← j.getObjVal? "newactions")
+    let s := ops.foldl applyOp l.s
+    pure (stateToJson { l with fuids := l.fuids ++ extraF, auids := l.auids ++ extraA } s)
   | "abort" =>
     let l ← stateOfJson (← j.getObjVal? "st")
     pure (resToJson l (abortFlow (← getNat j "fuel") l.s (← getNat j "uid") (← getBool j "d")))
